@@ -189,9 +189,10 @@ def generate(r):
     lines.insert(position, "let holder = strmod.Holder(%d);" % value)
     expect_position = sum(1 for line in lines[:position] if line.startswith("print("))
     tail = ["print('#gc');", "churn(30);", "print('#gc');", "import self.late;",
-            "print(late.field(holder), late.method(holder), late.field(holder.bump()), holder.%s);" % field]
+            # (the main module itself never names the members: its constants would keep the name strings alive)
+            "print(late.field(holder), late.method(holder), late.field(holder.bump()));"]
     lines += tail
-    expect += ["#gc", "#gc", "%d %d %d %d" % (value, value + 1, value + 10, value + 10)]
+    expect += ["#gc", "#gc", "%d %d %d" % (value, value + 1, value + 10)]
     files = {workloads.MAIN: "\n".join(lines) + "\n",
              "/sim/strmod.lay": "\n".join(module_texts + ["export let loaded = true;"]) + "\n",
              "/sim/late.lay": "export fn field(o) { o.%s }\nexport fn method(o) { o.%s() }\n" % (field, method)}
